@@ -337,7 +337,36 @@ fn run_net(ws: &[&str]) -> String {
         b = b.header(http::header::AUTHORIZATION, http::HeaderValue::from_bytes(a).unwrap());
     }
     let req = b.body(reqbody).unwrap();
-    let cli = match with_watchdog(move || call_adapter(&adapter, req)) {
+    // in half of the cases the SAME thread first makes another call through the same adapter that
+    // fails after part of a reply body has arrived (and one that succeeds): nothing of those
+    // exchanges may show up in the observed one
+    let pre = ws.iter().flat_map(|w| w.bytes()).fold(0xcbf29ce484222325u64, |h, b| (h ^ b as u64).wrapping_mul(0x100000001b3)) >> 21 & 1 == 0;
+    let mut pre_servers = vec![];
+    let mut pre_ports = vec![];
+    if pre {
+        for (fault, body) in [("truncated", &b"{\"access_token\":\"STALE-STALE-STALE-STALE\",\"token_type\":\"bearer\"}"[..]), ("none", &b"{\"stale\":true}"[..])] {
+            let l = TcpListener::bind("127.0.0.1:0").unwrap();
+            let p = l.local_addr().unwrap().port();
+            let (tx, rx) = mpsc::channel::<()>();
+            let r = Reply { status: 200, ct: Some(b"application/json".to_vec()), framing: "cl".into(), body: body.to_vec(), fault: fault.into() };
+            pre_servers.push((std::thread::spawn(move || serve(l, r, p, rx)), tx));
+            pre_ports.push(p);
+        }
+    }
+    let cli = match with_watchdog(move || {
+        for p in pre_ports {
+            let pr = http::Request::builder()
+                .method(http::Method::POST)
+                .uri(format!("http://127.0.0.1:{}/stale", p))
+                .header(http::header::ACCEPT, "application/json")
+                .header(http::header::CONTENT_TYPE, "application/x-www-form-urlencoded")
+                .header(http::header::AUTHORIZATION, "Basic c3RhbGU6c3RhbGU=")
+                .body(b"stale=request-body".to_vec())
+                .unwrap();
+            let _ = call_adapter(&adapter, pr);
+        }
+        call_adapter(&adapter, req)
+    }) {
         Ok(Ok(resp)) => format!(
             "cli: ok {} {} {}",
             resp.status().as_u16(),
@@ -348,6 +377,10 @@ fn run_net(ws: &[&str]) -> String {
         Err(why) => format!("cli: {}", why),
     };
     let _ = done_tx.send(());
+    for (h, tx) in pre_servers {
+        let _ = tx.send(());
+        let _ = h.join();
+    }
     let seen = match server {
         Some(h) => h.join().unwrap_or_default(),
         None => vec![],
